@@ -32,15 +32,15 @@ Rnd(s)     == s[RandomElement(1..Len(s))]
 \* ------------------------------------------------------------------------------------ domains
 EpPerms == PDynamic..PSelf
 Routes == IF Small
-          THEN {RW("wrap", -1, 2), RW("wrap", 2, 3), RW("wrap", 1, 4), RW("ep", 3, 0), RW("plain", 4, 4), RW("none", -2, -2)}
+          THEN {RW("wrap", -1, 2), RW("wrap", 2, 3), RW("ep", 3, 0), RW("plain", 4, 4), RW("none", -2, -2)}
           ELSE {RW("wrap", a, b) : a, b \in Perms} \cup {RW("ep", a, b) : a, b \in EpPerms}
                \cup {RW("getonly", a, b) : a, b \in {1, 2, 4}}
                \cup {RW("plain", 4, 4), RW("none", -2, -2), RW("epmiss", -2, -2)}
-Methods == IF Small THEN << <<"GET", "">>, <<"POST", "">>, <<"OPTIONS", "GET">>, <<"PATCH", "">> >>
+Methods == IF Small THEN << <<"GET", "">>, <<"POST", "">>, <<"OPTIONS", "GET">> >>
            ELSE << <<"GET", "">>, <<"GET", "">>, <<"GET", "">>, <<"HEAD", "">>, <<"POST", "">>, <<"POST", "">>, <<"PUT", "">>,
                    <<"DELETE", "">>, <<"PATCH", "">>, <<"OPTIONS", "">>, <<"OPTIONS", "GET">>, <<"OPTIONS", "POST">>,
                    <<"OPTIONS", "PATCH">>, <<"GET", "POST">>, <<"POST", "GET">> >>
-OriginsSeq == IF Small THEN <<"none", "host", "local", "foreign">>
+OriginsSeq == IF Small THEN <<"none", "local", "foreign">>
               ELSE <<"none", "none", "none", "none", "none", "none", "host", "hostnoport", "portless", "ext", "local", "local",
                      "foreign", "bad", "garbage">>
 Vias == IF Small THEN <<"http", "bridge">> ELSE <<"http", "http", "http", "http", "http", "http", "http", "http", "http", "bridge">>
@@ -99,32 +99,43 @@ DoWait == /\ HasSoon(S) /\ ~late
 DoPanic == \E k \in Pick({"action", "data", "struct", "record", "handler", "wrap"}) :
            \E v \in Pick({"nil", "err", "str", "rt", "struct"}) : \E m \in Pick({"GET", "POST"}) :
               Step([op |-> "panic", kind |-> k, pv |-> v, m |-> m], S, late)
-DoReq == \E via \in PickSeq(Vias) : \E rt \in Pick(Routes) : \E me \in PickSeq(Methods) : \E or \in PickSeq(OriginsSeq) :
-         \E ak \in PickSeq(AzKinds) : \E ck \in PickSeq(CkKinds) :
-         \E az \in AzOf(S, ak) : \E c \in CkOf(S, ck) :
-            LET q0 == Mk(via, rt, me, or, az, c)
-                \* the bridge reaches the endpoints only and carries no headers
-                q == IF via = "bridge"
-                     THEN [q0 EXCEPT !.route = IF rt.route \in {"ep", "epmiss"} THEN rt.route ELSE "ep",
-                                     !.rr = IF rt.rr \in EpPerms THEN rt.rr ELSE PAdmin,
-                                     !.rw = IF rt.rw \in EpPerms THEN rt.rw ELSE PUser,
-                                     !.acrm = "", !.origin = "none",
-                                     !.azk = "none", !.azid = 0, !.azn = 0, !.ckk = "none", !.ckid = 0]
-                     ELSE q0
-                ph == IF late THEN "after" ELSE "before" IN
+\* the requests of the (small or full) request space in configuration st
+ReqSpace(st) == UNION { UNION { UNION {
+    {LET q0 == Mk(via, rt, me, or, az, c) IN
+     \* the bridge reaches the endpoints only and carries no headers
+     IF via = "bridge"
+     THEN [q0 EXCEPT !.route = IF rt.route \in {"ep", "epmiss"} THEN rt.route ELSE "ep",
+                     !.rr = IF rt.rr \in EpPerms THEN rt.rr ELSE PAdmin,
+                     !.rw = IF rt.rw \in EpPerms THEN rt.rw ELSE PUser,
+                     !.acrm = "", !.origin = "none",
+                     !.azk = "none", !.azid = 0, !.azn = 0, !.ckk = "none", !.ckid = 0]
+     ELSE q0 : via \in PickSeq(Vias), rt \in Pick(Routes), me \in PickSeq(Methods), or \in PickSeq(OriginsSeq)}
+    : az \in AzOf(st, ak), c \in CkOf(st, ck)} : ak \in PickSeq(AzKinds)} : ck \in PickSeq(CkKinds)}
+
+\* simulation: a request is one operation of the history
+DoReq == /\ Emit
+         /\ \E q \in ReqSpace(S) :
             /\ S' = IF CreatesSession(S, q) THEN AddSession(S) ELSE S
             /\ hist' = Append(hist, [op |-> "req", q |-> q])
-            /\ cur' = [on |-> TRUE, S |-> S, q |-> q, ph |-> ph]
-            /\ UNCHANGED <<done, late>>
+            /\ UNCHANGED <<done, late, cur>>
+
+\* exhaustive search: every request of the small space is a leaf below the configuration state (it is judged
+\* by the invariants and has no successors), and one request that logs in continues the history
+LoginReq == Mk("http", RW("wrap", PDynamic, PUser), <<"GET", "">>, "none", Az("none", 0, 0), Ck("none", 0))
+DoProbe == /\ ~Emit /\ ~cur.on
+           /\ \E q \in ReqSpace(S) : cur' = [on |-> TRUE, S |-> S, q |-> q, ph |-> IF late THEN "after" ELSE "before"]
+           /\ UNCHANGED <<S, hist, done, late>>
+DoLogin == /\ ~Emit /\ CreatesSession(S, LoginReq)
+           /\ Step([op |-> "req", q |-> LoginReq], AddSession(S), late)
 
 \* simulation: the family of the next operation is drawn first; a family that is not enabled becomes a request
 Families == <<"req", "req", "req", "req", "req", "req", "req", "req", "keys", "keys", "auth", "auth", "dev",
               "expire", "expire", "clean", "wait", "wait", "panic">>
-Fam(f) == IF f = "expire" /\ Len(S.sess) = 0 THEN "req"
-          ELSE IF f = "wait" /\ (~HasSoon(S) \/ late) THEN "req"
-          ELSE IF f = "panic" /\ Small THEN "clean" ELSE f
+Fam(f) == IF ~Emit THEN f
+          ELSE IF f = "expire" /\ Len(S.sess) = 0 THEN "req"
+          ELSE IF f = "wait" /\ (~HasSoon(S) \/ late) THEN "req" ELSE f
 
-DoOp == /\ Len(hist) < MaxLen
+DoOp == /\ Len(hist) < MaxLen /\ ~cur.on
         /\ \E f0 \in PickSeq(Families) : LET f == Fam(f0) IN
               CASE f = "req"    -> DoReq
                 [] f = "keys"   -> DoKeys
@@ -133,14 +144,15 @@ DoOp == /\ Len(hist) < MaxLen
                 [] f = "expire" -> DoExpire
                 [] f = "clean"  -> DoClean
                 [] f = "wait"   -> DoWait
-                [] OTHER        -> DoPanic
+                [] f = "panic"  -> Emit /\ DoPanic
+                [] OTHER        -> FALSE
 
-Finish == /\ Len(hist) = MaxLen /\ ~done
+Finish == /\ Len(hist) = MaxLen /\ ~done /\ ~cur.on
           /\ done' = TRUE
           /\ (Emit => PrintT(<<"@@", ToJson([authset |-> S.authset, steps |-> hist])>>))
           /\ UNCHANGED <<S, hist, cur, late>>
 
-Next == DoOp \/ Finish
+Next == DoOp \/ DoProbe \/ (Len(hist) < MaxLen /\ ~cur.on /\ DoLogin) \/ Finish
 Spec == Init /\ [][Next]_vars
 
 \* ------------------------------------------------------------------------------------ checked by TLC (BFS)
